@@ -6,14 +6,6 @@ Require Import CV.LpCert CV.Transp1d CV.Transp1dProofs CV.Transp1dTerm CV.Transp
                CV.Transp1dOptA1 CV.Transp1dOptA2 CV.Transp1dOptM1 CV.Transp1dOptM2 CV.Transp1dOptM3 CV.Transp1dOptM4.
 Local Open Scope Z_scope.
 
-Definition mat_cost (P : sprob) (X : nat -> nat -> Z) : Z :=
-  zsum (fun i => zsum (fun j => cost P i j * X i j) (seq 0 (n_snk P))) (seq 0 (n_src P)).
-
-Definition feasible_mat (P : sprob) (X : nat -> nat -> Z) : Prop :=
-  (forall i j, (i < n_src P)%nat -> (j < n_snk P)%nat -> 0 <= X i j) /\
-  (forall i, (i < n_src P)%nat -> zsum (fun j => X i j) (seq 0 (n_snk P)) = Sx P (i + 1) - Sx P i) /\
-  (forall j, (j < n_snk P)%nat -> zsum (fun i => X i j) (seq 0 (n_src P)) <= Dx P (j + 1) - Dx P j).
-
 Theorem plans_lower_bound P X : wf_sprob P -> sorted_sprob P -> feasible_mat P X ->
   Vf P (n_src P) (Dx P (n_snk P) - Sx P (n_src P)) <= mat_cost P X.
 Proof.
